@@ -8,7 +8,7 @@ CONSTANTS
   EagerJoin = FALSE
   MaxCmds = 2
   MaxSys = 2
-  Codes = {0, 7}
+  Codes <- CodesWithNeg
   AllowBusy = FALSE
   FifoLocalQueue = TRUE
   StopEndsLoop = TRUE
@@ -23,6 +23,10 @@ CONSTANTS
   JoinWaitsExit = TRUE
   RunErrsOnNonZero = TRUE
   BlockOnExact = TRUE
+  SelfSend = FALSE
+  SelfSendViaChannel = TRUE
+  NegCodeIsErr = TRUE
+  CtrlBatch = 0
 SPECIFICATION Spec
 VIEW View
 SYMMETRY ThrSym
